@@ -23,6 +23,12 @@ func init() {
 }
 
 func runC10(p *Program, r *Result) {
+	// a passphrase recipient stands alone because its random label set equals nobody else's: the
+	// label mechanism of Encrypt (C11's rules) is part of this property
+	defer func() {
+		r.Rule("R10.6", "the label mechanism that keeps a passphrase recipient alone (= C11 R11.1-R11.5)", 0)
+		runC11(p, r)
+	}()
 	wwl := r.anchor(pkgAge, "ScryptRecipient", "WrapWithLabels")
 	idUnwrap := r.anchor(pkgAge, "ScryptIdentity", "Unwrap")
 	idunwrap := r.anchor(pkgAge, "ScryptIdentity", "unwrap")
